@@ -20,6 +20,9 @@ class NullFlow(Engine):
         self.sites: Dict[str, set] = {}
         self.prints: List[dict] = []
         self.returns: List[dict] = []
+        self.reads: Dict[str, set] = {}
+        self.listings: Dict[str, dict] = {}
+        self.values: Dict[str, set] = {}
 
     def count(self, kind, st, node):
         func, n, file, line = self.attrib(st, node)
@@ -31,10 +34,37 @@ class NullFlow(Engine):
                    'an Element is used as a condition: its truth value is "has children" (a childless element is false) and '
                    'testing it emits DeprecationWarning on Python 3.12, which -W error turns into an exception')
 
+    def on_find(self, st, node, parent, tag, result, path):
+        pe = st.get(parent.sym)
+        self.reads.setdefault(self.entry, set()).add((pe.tag or '?', tag if isinstance(tag, str) else '?', 'path' if path else 'direct'))
+
+    def on_descend(self, st, node, parent, how):
+        pe = st.get(parent.sym)
+        self.reads.setdefault(self.entry, set()).add((pe.tag or '?', how, 'descend'))
+
+    def record_value(self, entry, v, st):
+        """Abstract shape of a returned value (for ORDER-PIPE / NONE-ON-ABSENT obligations)."""
+        if isinstance(v, Ref) and v.kind == 'list':
+            le = st.get(v.sym)
+            info = self.listings.setdefault(entry, {'ordered': True, 'stages': set(), 'sources': set(), 'elements': set()})
+            info['ordered'] = info['ordered'] and le.ordered
+            info['stages'].update(le.stages)
+            for t in le.items:
+                info['elements'].add(self.describe(t, st))
+            self.values.setdefault(entry, set()).add('list')
+        else:
+            self.values.setdefault(entry, set()).add(type(v).__name__ + (':' + st.get(v.sym).cls.split(':')[-1] if isinstance(v, Ref) and v.kind == 'obj' else ''))
+
     def on_print(self, st, node, args, kwargs):
         func, n, file, line = self.attrib(st, node)
-        self.prints.append({'func': func, 'construct': norm(n) if n is not None else '',
-                            'args': [self.describe(a, st) for a in args]})
+        base = None
+        steps = []
+        for a in args:
+            stp = id_steps(self, a, st)
+            if stp is not None:
+                steps.append([list(x) for x in (stp[1:] if len(stp) > 1 and stp[0][1] == 'first' and stp[0][0].startswith('ro') else stp)])
+        self.prints.append({'func': func, 'construct': norm(n) if n is not None else '', 'line': line,
+                            'args': [self.describe(a, st) for a in args], 'id_steps': steps})
 
     def escape(self, rule, v: Raise, s: State, allowed, why):
         exc = v.exc
@@ -50,7 +80,10 @@ def result(eng: NullFlow, kind, name, extra=None):
     from .analysis import finding_dict
     return {'kind': kind, 'name': name, 'ok': True, 'findings': [finding_dict(f) for f in eng.findings.values()],
             'sites': {k: sorted(v) for k, v in eng.sites.items()}, 'notes': eng.notes, 'stats': eng.stats,
-            'functions': sorted(eng.functions_entered), 'prints': eng.prints, 'returns': eng.returns, **(extra or {})}
+            'functions': sorted(eng.functions_entered), 'prints': eng.prints, 'returns': eng.returns,
+            'reads': {k: sorted(v) for k, v in eng.reads.items()},
+            'listings': {k: {'ordered': v['ordered'], 'stages': sorted(v['stages']), 'elements': sorted(v['elements'])} for k, v in eng.listings.items()},
+            'values': {k: sorted(v) for k, v in eng.values.items()}, **(extra or {})}
 
 
 # ------------------------------------------------------------------ jobs
@@ -62,6 +95,9 @@ def jobs(prog: Program):
         if fi is not None and c.name not in ('MosFile', 'ElementAction'):
             out.append(('inspect', c.name))
     out.append(('accessors', 'RunningOrder'))
+    out.append(('notetable', 'Story.script'))
+    for cname in schema.ACCESSOR_ROLES:
+        out.append(('msgaccessors', cname))
     return out
 
 
@@ -72,6 +108,10 @@ def run_job(prog: Program, kind, name):
         return run_inspect(prog, name)
     if kind == 'accessors':
         return run_accessors(prog)
+    if kind == 'notetable':
+        return run_note_table(prog)
+    if kind == 'msgaccessors':
+        return run_msg_accessors(prog, name)
     raise AnalysisError(f'unknown job {kind}')
 
 
@@ -170,8 +210,11 @@ def run_accessors(prog: Program):
             for v, s in eng.call_function(fi, [], {}, st.copy(), None, self_val=ro):
                 if isinstance(v, Raise):
                     eng.escape('NO-BUILTIN-ESCAPE', v, s, [], 'for a reachable running order')
-                elif fi.name == 'stories':
+                    continue
+                eng.record_value(f'RunningOrder.{fi.name}', v, s)
+                if fi.name == 'stories':
                     check_elements(eng, prog, v, s, 'Story', checked)
+                    eng.entry = f'RunningOrder.{fi.name}'
         for name in ('__str__', '__repr__', 'inspect'):
             fi = ro_cls.find(name)
             if fi is None:
@@ -201,7 +244,151 @@ def check_elements(eng: NullFlow, prog: Program, lst, st: State, cname: str, che
             for v, s2 in eng.call_function(fi, [], {}, s.copy(), None, self_val=elem):
                 if isinstance(v, Raise):
                     eng.escape('NO-BUILTIN-ESCAPE', v, s2, [], f'for a {cname.lower()} of a reachable running order')
-                elif fi.name == 'items' and depth == 0 and cname == 'Story':
+                    continue
+                eng.record_value(entry, v, s2)
+                if fi.name == 'items' and depth == 0 and cname == 'Story':
                     check_elements(eng, prog, v, s2, 'Item', checked, depth + 1)
-                elif fi.name == 'body' and depth == 0 and cname == 'Story':
-                    pass
+                    eng.entry = entry
+
+
+# ------------------------------------------------------------ note table
+NOTE_REPRESENTATIVES = [
+    # (text, expected script entry or None)   -- specification: kept iff non-blank and not wrapped in () or <>; value stripped
+    (None, None), ('', None), ('   ', None), ('\n', None),
+    ('hello', 'hello'), ('  hello  ', 'hello'),
+    ('(note)', None), ('<note>', None), ('  (note)  ', None), (' <note>\n', None),
+    ('(half', '(half'), ('half)', 'half)'), ('<half', '<half'), ('half>', 'half>'),
+    ('(mixed>', '(mixed>'), ('<mixed)', '<mixed)'), ('a (b) c', 'a (b) c'), ('()', None), ('<>', None), ('(', '('), ('>', '>'),
+]
+
+
+def run_note_table(prog: Program):
+    """NOTE-TABLE: decision table of Story.script over the finite string abstraction
+    {None, empty, blank} + {first char class} x {last char class}, one representative literal per class.
+    The interpreter folds str.strip/startswith/endswith on literals; any other string operation on the
+    paragraph text makes the value non-literal and the row is reported as unrecognised."""
+    from dataclasses import replace as _r
+    from .domains import ListE, ElemE
+    eng = NullFlow(prog, 'Story.script (note table)')
+    story_cls = prog.cls('Story')
+    fi = story_cls.find('script')
+    if fi is None:
+        raise AnalysisError('anchor vanished: Story.script')
+    rows = []
+    for text, expected in NOTE_REPRESENTATIVES:
+        st = base_state(eng)
+        root = new_root(st, 'RO', 'RO')
+        x = st.new(ElemE('RO', 'story', root.sym, True, ('first', ('$', root.sym), 'story')))
+        p = st.new(ElemE('RO', 'p', x, True, ('first', ('$', x), 'p'), text=(Const(text) if text is not None else NoneV(('blank', ('$', x))))))
+        lst = st.new(ListE('lit', 1, 1, items=(Ref('elem', p),)))
+        st.mon['findall_override'] = {(x, 'p'): lst}
+        outs = make_object(eng, story_cls, Ref('elem', x), st)
+        got = set()
+        for obj, s in outs:
+            if isinstance(obj, Raise):
+                got.add(('raise', obj.exc.cls))
+                continue
+            for v, s2 in eng.call_function(fi, [], {}, s, None, self_val=obj):
+                if isinstance(v, Raise):
+                    got.add(('raise', v.exc.cls))
+                elif isinstance(v, Ref) and v.kind == 'list':
+                    le = s2.get(v.sym)
+                    if le.hi == 0 or not le.items:
+                        got.add(('kept', None))
+                    else:
+                        for t in le.items:
+                            got.add(('kept', t.v) if isinstance(t, Const) else ('unrecognised', eng.describe(t, s2)))
+                else:
+                    got.add(('unrecognised', eng.describe(v, s2)))
+        rows.append({'text': text, 'expected': expected, 'got': sorted(got, key=repr)})
+    return {'kind': 'notetable', 'name': 'Story.script', 'ok': True, 'rows': rows, 'findings': [], 'notes': eng.notes,
+            'sites': {}, 'stats': eng.stats, 'functions': sorted(eng.functions_entered)}
+
+
+# ------------------------------------------------------- message accessors
+def id_steps(eng: NullFlow, idval, st: State):
+    """Provenance of an id value as steps (tag, selector) below the message's base tag."""
+    o = getattr(idval, 'origin', None)
+    if not (isinstance(o, tuple) and o and o[0] in ('text', 'blank')):
+        return None
+    sym = o[1][1]
+    steps = []
+    guard = 0
+    while sym in st.heap and guard < 12:
+        guard += 1
+        e = st.get(sym)
+        k = e.origin[0]
+        if k == 'root':
+            break
+        if k == 'first':
+            steps.append((e.tag, 'first'))
+            sym = e.origin[1][1]
+        elif k == 'each':
+            steps.append((e.tag, 'each' + (e.origin[3].replace('slice', '') if len(e.origin) > 3 else '')))
+            sym = e.origin[1][1]
+        elif k == 'nth':
+            steps.append((e.tag, 'first' if e.origin[3] == 0 else f'nth{e.origin[3]}'))
+            sym = e.origin[1][1]
+        elif k == 'copy':
+            src = st.get(e.origin[1][1]) if e.origin[1][1] in st.heap else None
+            steps.append(('copy', (src.stag or src.tag) if src else '?'))
+            break
+        else:
+            steps.append((e.tag or '?', k))
+            if len(e.origin) > 1 and isinstance(e.origin[1], tuple) and e.origin[1][0] == '$':
+                sym = e.origin[1][1]
+            else:
+                break
+    steps.reverse()
+    return steps
+
+
+def run_msg_accessors(prog: Program, cname: str):
+    eng = NullFlow(prog, f'{cname} accessors')
+    ci = prog.cls(cname)
+    base = base_tag_literal(eng, ci)
+    info: Dict[str, dict] = {}
+    skip = {c.qualname for c in (prog.cls('MosFile'), prog.cls('ElementAction'), prog.cls('RunningOrder'))}
+    props_ = [fi for fi in public_properties(ci) if fi.cls.qualname not in skip and fi.name != 'base_tag_name']
+    for obj, st in message_object(eng, cname):
+        for fi in props_:
+            entry = f'{cname}.{fi.name}'
+            eng.entry = entry
+            rec = info.setdefault(fi.name, {'kind': set(), 'ids': set(), 'ordered': True, 'absent_id': False})
+            for v, s in eng.call_function(fi, [], {}, st.copy(), None, self_val=obj):
+                if isinstance(v, Raise):
+                    eng.escape('ACCESSOR-TOTAL', v, s, [], 'for a schema-shaped message')
+                    continue
+                wrappers = []
+                if isinstance(v, Ref) and v.kind == 'obj':
+                    rec['kind'].add('single')
+                    wrappers.append((v, s))
+                elif isinstance(v, Ref) and v.kind == 'list':
+                    rec['kind'].add('plural')
+                    le = s.get(v.sym)
+                    rec['ordered'] = rec['ordered'] and le.ordered
+                    if le.hi != 0:
+                        for elem, s2 in eng.list_elem(v, s.copy(), 0, None):
+                            if isinstance(elem, Ref) and elem.kind == 'obj':
+                                wrappers.append((elem, s2))
+                elif isinstance(v, NoneV):
+                    rec['kind'].add('none')
+                else:
+                    rec['kind'].add(type(v).__name__)
+                for w, s2 in wrappers:
+                    for idv, s3 in eng.getattr_(w, 'id', s2.copy(), None):
+                        if isinstance(idv, Raise):
+                            eng.escape('ACCESSOR-TOTAL', idv, s3, [], 'reading .id of an exposed element')
+                            continue
+                        steps = id_steps(eng, idv, s3)
+                        if steps is None:
+                            if isinstance(idv, NoneV):
+                                rec['absent_id'] = True
+                            else:
+                                rec['ids'].add(('?', eng.describe(idv, s3)))
+                        else:
+                            if steps and steps[0] == (base, 'first'):
+                                steps = steps[1:]
+                            rec['ids'].add(tuple(steps))
+    out = {k: {'kind': sorted(v['kind']), 'ids': sorted(v['ids'], key=repr), 'ordered': v['ordered'], 'absent_id': v['absent_id']} for k, v in info.items()}
+    return result(eng, 'msgaccessors', cname, {'accessors': out})
